@@ -9,7 +9,11 @@
 (*   Build     toks   the expression (TLC-generated token sequence)                   *)
 (*             seen   what Python's tokenize makes of each of the renderings          *)
 (*             iok, ivals   value of the dense rendering under Vals (driver)          *)
-(*   Rename    map, sp (spacing), ok, toks (re-tokenised result), text, vok, vals     *)
+(*             (one per layout that applies: single-line layouts, and for sequences   *)
+(*             with NL / NEWLINE tokens or operators outside brackets the multi-line  *)
+(*             ones; line ends are the tokens [NL, "NL"] / [NEWLINE, "NL"])           *)
+(*   Rename    map, sp (layout), ok, toks (re-tokenised result), text (line ends      *)
+(*             written <NL>), vok, vals                                               *)
 (*   RenameOne target, repl, sp, ok, toks, text, vok, vals                            *)
 (*   ListNames sp, ok, names                                                          *)
 (*   End                                                                              *)
